@@ -9,9 +9,9 @@ dictionaries of the single ParseState and the two process-global type-info dicti
   `lookup_frame`        registering an unrelated name does not change what any other name resolves to
   `register_swap/perm`  registering definitions with distinct names in any order gives the same scope
   `split_files`         folding the registrations file by file = folding them over the whole sequence
-  `typeinfo_frame_partial` the same for the global type-info dictionaries UNDER injectivity of
-                        encodedKey on the type instances in use — the hypothesis is forced:
-  `encodedKey_collision` A<B_C> and A_B<C> share the key "A_B_C" (known finding D14).
+  `typeinfo_frame`      the same for the global type-info dictionaries (after fix c59ed89 of D14:
+                        `encodedKey_inj`; `unfixed_key_collision` is the witness for the old key,
+                        under which A<B_C> and A_B<C> shared "A_B_C")
 NOT modelled: the per-definition translation itself (that it reads the state only through these
 lookups is tied by metamorphic runs of the real compiler: permute, drop, insert, split into files).
 -/
@@ -58,23 +58,104 @@ theorem split_files (m : GoMap κ ν) (files : List (List (κ × ν))) :
   | nil => rfl
   | cons f rest ih => simp only [List.foldl_cons, List.flatten_cons, ih]; simp [addAll, List.foldl_append]
 
-/-! ### the process-global type-info dictionaries -/
+/-! ### the process-global type-info dictionaries
 
-def joinU : List String → String
-  | [] => ""
+Keys are texts; they are modelled as lists of characters.  Before fix c59ed89 the key was
+`name ++ "_" ++ join "_" args` (not injective: `unfixed_key_collision`, defect D14); now it is
+`name ++ "<" ++ join "," args ++ ">"`. -/
+
+abbrev Txt := List Char
+
+def joinWith (sep : Char) : List Txt → Txt
+  | [] => []
   | [s] => s
-  | s :: rest => s ++ "_" ++ joinU rest
+  | s :: t :: rest => s ++ sep :: joinWith sep (t :: rest)
 
-/-- `encodedKey name targs = name ++ "_" ++ join "_" (map FTypeToGo targs)` -/
-def encodedKey (name : String) (targs : List String) : String := name ++ "_" ++ joinU targs
+/-- the key before the fix -/
+def encodedKeyOld (name : Txt) (targs : List Txt) : Txt := name ++ '_' :: joinWith '_' targs
 
-/-- witness (known finding D14): two different generic instances share one key -/
-theorem encodedKey_collision : encodedKey "A" ["B_C"] = encodedKey "A_B" ["C"] ∧ ("A", ["B_C"]) ≠ ("A_B", ["C"]) := by
-  decide
+/-- `encodedKey name targs = $"{name}<{join "," (map FTypeToGo targs)}>"` -/
+def encodedKey (name : Txt) (targs : List Txt) : Txt := name ++ '<' :: (joinWith ',' targs ++ ['>'])
 
-/-- under injectivity of the key on the instances in use, updating one instance's info leaves every
-other instance's info alone -/
-theorem typeinfo_frame_partial {ι : Type} (g : GoMap String ι) (inst inst' : String × List String) (info : ι)
+/-- witness (defect D14, repaired): two different generic instances shared one key -/
+theorem unfixed_key_collision :
+    encodedKeyOld "A".toList ["B_C".toList] = encodedKeyOld "A_B".toList ["C".toList] ∧
+    ("A".toList, ["B_C".toList]) ≠ ("A_B".toList, ["C".toList]) := by decide
+
+/-- … and no longer do -/
+theorem fixed_no_collision : encodedKey "A".toList ["B_C".toList] ≠ encodedKey "A_B".toList ["C".toList] := by decide
+
+theorem split_unique (c : Char) : ∀ (l1 l2 r1 r2 : Txt), c ∉ l1 → c ∉ l2 → l1 ++ c :: r1 = l2 ++ c :: r2 → l1 = l2 ∧ r1 = r2
+  | [], [], _, _, _, _, h => by simpa using h
+  | [], y :: l2, _, _, _, h2, h => by
+    simp only [List.nil_append, List.cons_append, List.cons.injEq] at h
+    exact absurd (h.1 ▸ List.mem_cons_self) h2
+  | x :: l1, [], _, _, h1, _, h => by
+    simp only [List.nil_append, List.cons_append, List.cons.injEq] at h
+    exact absurd (h.1 ▸ List.mem_cons_self) h1
+  | x :: l1, y :: l2, r1, r2, h1, h2, h => by
+    simp only [List.cons_append, List.cons.injEq] at h
+    have := split_unique c l1 l2 r1 r2 (fun hm => h1 (List.mem_cons_of_mem _ hm)) (fun hm => h2 (List.mem_cons_of_mem _ hm)) h.2
+    exact ⟨by rw [h.1, this.1], this.2⟩
+
+/-- texts that are not empty and do not contain the separator -/
+def Plain (sep : Char) (as : List Txt) : Prop := ∀ a ∈ as, sep ∉ a ∧ a ≠ []
+
+theorem joinWith_cons2 (sep : Char) (s t : Txt) (rest : List Txt) :
+    joinWith sep (s :: t :: rest) = s ++ sep :: joinWith sep (t :: rest) := rfl
+
+theorem joinWith_ne_nil (sep : Char) : ∀ (a : Txt) (as : List Txt), a ≠ [] → joinWith sep (a :: as) ≠ []
+  | a, [], h => h
+  | a, t :: rest, _ => by rw [joinWith_cons2]; simp
+
+theorem joinWith_inj (sep : Char) : ∀ (as bs : List Txt), Plain sep as → Plain sep bs →
+    joinWith sep as = joinWith sep bs → as = bs
+  | [], [], _, _, _ => rfl
+  | [], b :: bs, _, hb, h => absurd h.symm (joinWith_ne_nil sep b bs (hb b List.mem_cons_self).2)
+  | a :: as, [], ha, _, h => absurd h (joinWith_ne_nil sep a as (ha a List.mem_cons_self).2)
+  | [a], [b], _, _, h => by simpa [joinWith] using h
+  | [a], b :: b2 :: rest, ha, _, h => by
+    rw [joinWith_cons2] at h
+    have : sep ∈ a := by
+      have e : a = b ++ sep :: joinWith sep (b2 :: rest) := by simpa [joinWith] using h
+      rw [e]; simp
+    exact absurd this (ha a List.mem_cons_self).1
+  | a :: a2 :: rest, [b], _, hb, h => by
+    rw [joinWith_cons2] at h
+    have : sep ∈ b := by
+      have e : b = a ++ sep :: joinWith sep (a2 :: rest) := by simpa [joinWith] using h.symm
+      rw [e]; simp
+    exact absurd this (hb b List.mem_cons_self).1
+  | a :: a2 :: rest, b :: b2 :: rest', ha, hb, h => by
+    rw [joinWith_cons2, joinWith_cons2] at h
+    obtain ⟨e1, e2⟩ := split_unique sep a b _ _ (ha a List.mem_cons_self).1 (hb b List.mem_cons_self).1 h
+    have := joinWith_inj sep (a2 :: rest) (b2 :: rest') (fun x hx => ha x (List.mem_cons_of_mem _ hx))
+      (fun x hx => hb x (List.mem_cons_of_mem _ hx)) e2
+    rw [e1, this]
+
+/-- **the key is injective** on instances whose name contains no `<` and whose argument texts are
+non-empty and contain no comma (names, basic types, slices, nested generic instances with one
+argument; an argument text WITH a comma — `frt.Tuple2[int, string]`, a function type — relies on
+balanced brackets, which is not proved) -/
+theorem encodedKey_inj (n n' : Txt) (as as' : List Txt) (hn : '<' ∉ n) (hn' : '<' ∉ n')
+    (ha : Plain ',' as) (ha' : Plain ',' as') (h : encodedKey n as = encodedKey n' as') : n = n' ∧ as = as' := by
+  unfold encodedKey at h
+  obtain ⟨e1, e2⟩ := split_unique '<' n n' _ _ hn hn' h
+  refine ⟨e1, joinWith_inj ',' as as' ha ha' ?_⟩
+  exact List.append_cancel_right e2
+
+/-- updating one instance's info leaves every other instance's info alone (after the fix: no
+injectivity hypothesis is left for plain argument texts) -/
+theorem typeinfo_frame {ι : Type} (g : GoMap Txt ι) (n n' : Txt) (as as' : List Txt) (info : ι)
+    (hn : '<' ∉ n) (hn' : '<' ∉ n') (ha : Plain ',' as) (ha' : Plain ',' as') (h : (n, as) ≠ (n', as')) :
+    (dictAdd g (encodedKey n' as') info).get? (encodedKey n as) = g.get? (encodedKey n as) := by
+  apply lookup_frame
+  intro heq
+  obtain ⟨e1, e2⟩ := encodedKey_inj n n' as as' hn hn' ha ha' heq
+  exact h (by rw [e1, e2])
+
+/-- the general form, under injectivity on the instances in use (kept for argument texts with commas) -/
+theorem typeinfo_frame_partial {ι : Type} (g : GoMap Txt ι) (inst inst' : Txt × List Txt) (info : ι)
     (inj : encodedKey inst.1 inst.2 = encodedKey inst'.1 inst'.2 → inst = inst') (h : inst ≠ inst') :
     (dictAdd g (encodedKey inst'.1 inst'.2) info).get? (encodedKey inst.1 inst.2) = g.get? (encodedKey inst.1 inst.2) := by
   apply lookup_frame
